@@ -118,7 +118,7 @@ QUERY_OPS = ["satisfiable", "eval", "eval", "batch_eval", "min", "max", "min", "
 
 
 def random_history(rng, A, cls, kw, length, multi=False, pick=False, unsat_core=False, foldable=False,
-                   branchy=False, truthy=False):
+                   branchy=False, truthy=False, annotvar=False):
     W = A["W"]
     m = (1 << W) - 1
     H = [["new", cls, kw]]
@@ -161,6 +161,10 @@ def random_history(rng, A, cls, kw, length, multi=False, pick=False, unsat_core=
                 batch = [c0, c0, rng.choice(eqs)] if rng.random() < 0.5 else [c0, rng.choice(eqs), c0]
             if unsat_core and rng.random() < 0.3:
                 H.append(["add", s, batch, "annot"])
+            elif annotvar:
+                H.append(["add", s, batch, "annotvar"])
+                if rng.random() < 0.5:
+                    H.append(["simplify", s])
             else:
                 H.append(["add", s, batch])
         elif r < 0.82:
@@ -430,7 +434,8 @@ def run_history(H, vars_, tid, cfg, step_hook=None):
     def ev_base(call, s):
         return {"call": call, "s": s, "new": [], "e": DUMMY, "es": [], "n": 0, "v": DUMMY, "signed": False,
                 "extra": [], "cs": [], "others": [], "anc": -1, "ret": [], "rets": [], "groups": [], "scons": [],
-                "exc": "", "excClaripy": False, "mode": "exact", "fault": 0, "fired": False, "conc": False, "csb": []}
+                "exc": "", "excClaripy": False, "mode": "exact", "fault": 0, "fired": False, "conc": False, "csb": [],
+                "anntags": []}
 
     for op_index, op in enumerate(H):
         if step_hook is not None:
@@ -471,6 +476,16 @@ def run_history(H, vars_, tid, cfg, step_hook=None):
                     # constraints carrying an annotation: the core must return THESE objects
                     built = [c.annotate(TagAnno(op_index * 10 + j)) for j, c in enumerate(built)]
                     e["cs"] = [TM.ser(c, ann=True) for c in built]
+                if len(op) > 3 and op[3] == "annotvar":
+                    # the same constraints over ANNOTATED variables (same names): meaning unchanged; used to see whether
+                    # annotations of one user's variables leak into another user's expressions (C20)
+                    nb = []
+                    for c in built:
+                        for leaf in list(c.leaf_asts()):
+                            if leaf.op == "BVS" and not leaf.annotations:
+                                c = claripy.replace(c, leaf, leaf.annotate(TagAnno(777)))
+                        nb.append(c)
+                    built = nb
                 e["csb"] = [TM.ser(c, ann=bool(c.annotations)) for c in built]
                 e["cfalse"] = any(c.op == "BoolV" and c.args[0] is False for c in built)
                 sol.add(built)
@@ -510,6 +525,14 @@ def run_history(H, vars_, tid, cfg, step_hook=None):
                 e["ret"] = [[vbits(bool(r), None)]]
             elif call == "simplify":
                 sol.simplify()
+                # which annotations the solver's constraints carry afterwards (leaf or inner): Z3-side simplification
+                # re-attaches the annotations recorded for a variable name
+                tags = set()
+                for c in getattr(sol, "constraints", []) or []:
+                    for n_ in [c, *c.children_asts()]:
+                        for a_ in n_.annotations:
+                            tags.add(type(a_).__name__ + ":" + str(getattr(a_, "k", "")))
+                e["anntags"] = sorted(tags)
             elif call == "partition":
                 # projection of a composite's refined state: which child is registered under which names, and the
                 # variables of that child (spec/SolverComposite.tla: reg, VarsOf(cs)); observation only
